@@ -454,3 +454,52 @@ func paramSelectors(p *packages.Package, fd *ast.FuncDecl, prm types.Object, dep
 		return true
 	})
 }
+
+// goTarget: the function a go (or defer) statement's call runs, as a function literal: the literal itself, the literal
+// a local it names was assigned (once), or a declared function / method of the package (its declaration presented as a
+// literal). nil when it is none of these.
+func goTarget(p *packages.Package, root ast.Node, call *ast.CallExpr) *ast.FuncLit {
+	info := p.TypesInfo
+	switch f := ast.Unparen(call.Fun).(type) {
+	case *ast.FuncLit:
+		return f
+	case *ast.Ident:
+		if ob, ok := info.ObjectOf(f).(*types.Var); ok {
+			var lit *ast.FuncLit
+			n := 0
+			ast.Inspect(root, func(m ast.Node) bool {
+				switch st := m.(type) {
+				case *ast.AssignStmt:
+					for i, l := range st.Lhs {
+						if id, ok := l.(*ast.Ident); ok && info.ObjectOf(id) == types.Object(ob) {
+							n++
+							if len(st.Lhs) == len(st.Rhs) {
+								lit, _ = ast.Unparen(st.Rhs[i]).(*ast.FuncLit)
+							}
+						}
+					}
+				case *ast.ValueSpec:
+					for i, nm := range st.Names {
+						if info.Defs[nm] == types.Object(ob) && i < len(st.Values) {
+							n++
+							lit, _ = ast.Unparen(st.Values[i]).(*ast.FuncLit)
+						}
+					}
+				}
+				return true
+			})
+			if n == 1 {
+				return lit
+			}
+			return nil
+		}
+	}
+	if fn := calleeOf(info, call); fn != nil && fn.Pkg() == p.Types {
+		for _, fd := range allFuncDecls(p) {
+			if info.Defs[fd.Name] == types.Object(fn) && fd.Body != nil {
+				return &ast.FuncLit{Type: fd.Type, Body: fd.Body}
+			}
+		}
+	}
+	return nil
+}
